@@ -507,15 +507,49 @@ Section Visitor.
     | _ => false
     end.
 
-  (* maxMigratedGrowth * len(expression) + maxMigratedSlack *)
-  Definition max_migrated_length (expression : text) : nat := (100 * utf8_len expression + 1000)%nat.
+  (* maxMigratedGrowth * len(expression) + maxMigratedSlack (constants regenerated in gen/LegacyTable.v) *)
+  Definition max_migrated_length (expression : text) : nat :=
+    (max_migrated_growth * utf8_len expression + max_migrated_slack)%nat.
+
+  (* checkExpressionSize over the token list (the stream includes the EOF token): at most maxExpressionTokens tokens;
+     nesting = open parentheses + the unary minuses still waiting for their operand at each level *)
+  Fixpoint size_loop (ts : list tok) (pending : list nat) : bool :=
+    match ts with
+    | [] => true
+    | t :: r =>
+        let pending' :=
+          match t, pending with
+          | TLParen, _ => O :: pending
+          | TRParen, _ :: p2 :: rest => p2 :: rest
+          | TRParen, [_] => [O]
+          | TComma, _ :: rest => O :: rest
+          | TOp OSub, p :: rest => S p :: rest
+          | _, _ => pending
+          end in
+        if Nat.ltb max_expression_nesting (Nat.pred (length pending') + list_sum pending') then false
+        else size_loop r pending'
+    end.
+
+  Definition expression_size_ok (expression : text) : bool :=
+    let ts := lex1 expression in
+    negb (Nat.ltb max_expression_tokens (S (length ts))) && size_loop ts [O].
 
   (* migrateExpression: None = the legacy parser reported a syntax error *)
   Definition migrate_expression (expression : text) : option text :=
-    match parse1 expression with
-    | Some e => if visit_errs e || too_long (max_migrated_length expression) e then None else Some (visit e)
-    | None => None
-    end.
+    if negb (expression_size_ok expression) then None
+    else
+      match parse1 expression with
+      | Some e =>
+          if visit_errs e || too_long (max_migrated_length expression) e then None
+          else
+            (* the migrated expression must be accepted by the new parser (its depth limit MaxParseDepth is not modelled:
+               gen/LegacyTable.v max_parse_depth is recorded only) *)
+            match parse3 (visit e) with
+            | Some _ => Some (visit e)
+            | None => None
+            end
+      | None => None
+      end.
 
   (* ---- template level ---- *)
 
